@@ -236,6 +236,10 @@ def run(ctx):
         o = outcome(mk)
         if o[0] != "ok":
             ctx.violation(what="a named constructor refuses instances of subclasses of the time classes", constructor=label, observed=show(o)[:160], required="a Timing")
+    # a Timing never changes after creation - also not when the waveform holding it is a SOURCE of an append (receivers with no timestamps
+    # yet hand the first source's object on): the scenario generator is C10's
+    from props import c10 as _c10
+    ctx.extra["timing_objects_of_append_sources"] = _c10.empty_irregular_receiver_cases(ctx, lambda v: ctx.violation(**dict(v, what="a Timing object changed after its creation (it was held by a source of an append)")))
     res = ctx.model([q for q, _ in reqs])
     if res is not None:
         for (q, want), got in zip(reqs, res):
